@@ -50,9 +50,10 @@ class PathState:
         self.handling: list[V] = []
         self.tasks: list[dict] = []
         self.flags: dict = {}
+        self.now = z3.Int('now0')
 
     def snapshot(self):
-        return {'heap': dict(self.heap), 'ghost': dict(self.ghost), 'ctx': dict(self.ctx), 'env': dict(self.env)}
+        return {'heap': dict(self.heap), 'ghost': dict(self.ghost), 'ctx': dict(self.ctx), 'env': dict(self.env), 'now': self.now}
 
 
 class Chooser:
